@@ -32,18 +32,22 @@ def check(ctx):
     first = r.muts
     ok_all = True
     probes = set()
+    def present(c2, pol2, nofollow):
+        pn = probe_result_of(c2)
+        if pn is None or not pol2:
+            return False
+        pd = g.n(pn).data
+        if pd['role'] == 'presence' and alt_ids(pd['args'][0]) == r.arg_ids:
+            probes.add(pn)
+            return (not pd['follow']) if nofollow else True
+        return False
     for e in first:
-        okp = False
-        for c, pol, n in guards(b, e.id):
-            c2, pol2 = unwrap_not(c, pol)
-            pn = probe_result_of(c2)
-            if pn is None or not pol2:
-                continue
-            pd = g.n(pn).data
-            if pd['role'] == 'presence' and alt_ids(pd['args'][0]) == r.arg_ids:
-                probes.add(pn)
-                if not pd['follow']:
-                    okp = True
+        # (a dominating guard, or the verdict of a pre-check helper: every consistent path)
+        okp = established(b, e.id, lambda c2, p2: present(c2, p2, True),
+                          start=r.arg_iteration)
+        if not okp:
+            established(b, e.id, lambda c2, p2: present(c2, p2, False),
+                        start=r.arg_iteration)      # (collects the probes for the report)
         ok_all = ok_all and okp
     pn = g.n(sorted(probes)[0]) if probes else r.muts[0]
     ctx.ob('R18.1', 'presence of the argument is decided without following links', ok_all,
